@@ -69,7 +69,10 @@ def gen_cases(seed, tier):
         if i < len(forced):
             allow = (forced[i][0],)
         for _try in range(40):
-            dom = gen_geo.gen_domain(rng, max_depth=int(rng.integers(1, 3 if quick else 4)), k=int(rng.choice([0, 0, 1, 2])),
+            kdom = int(rng.choice([0, 0, 1, 2]))
+            if i < len(forced) and forced[i][2] == "dens":
+                kdom = min(kdom, 1)
+            dom = gen_geo.gen_domain(rng, max_depth=int(rng.integers(1, 3 if quick else 4)), k=kdom,
                                      allow=allow, dim=2 if (i < len(forced) and forced[i][0] in ("rotate", "translate", "product")) else None)
             if not (i < len(forced) and forced[i][4] and dom["spec"].get("op") not in forced[i][4]):
                 break
@@ -235,6 +238,13 @@ def _leaf_boundary_points(node, env_row, M, rng):
         ln = np.linalg.norm(E, axis=1)
         e = rng.choice(len(V), size=M, p=ln / ln.sum())
         return V[e] + rng.random((M, 1)) * E[e]
+    if isinstance(node, geo.Polyhedron):
+        f = rng.choice(len(node.F), size=M, p=node.area / node.area.sum())
+        u, v = rng.random(M), rng.random(M)
+        m = u + v > 1
+        u[m], v[m] = 1 - u[m], 1 - v[m]
+        a, b, c = node.V[node.F[f, 0]], node.V[node.F[f, 1]], node.V[node.F[f, 2]]
+        return a + u[:, None] * (b - a) + v[:, None] * (c - a)
     raise ValueError("no boundary reference for %s" % type(node).__name__)
 
 
